@@ -840,6 +840,9 @@ def describe(x, depth=0):
         return describe(x.v, depth + 1)
     if isinstance(x, Ref):
         return "&" + describe(x.cell.v, depth + 1)
+    if isinstance(x, Agg) and x.kind == "KeyPair" and len(x.fields) == 3:
+        # a key pair object is named by its algorithm field; its stored document only shows up when projected out explicitly
+        return "KeyPair#" + describe(x.fields[1], depth + 1)
     if isinstance(x, Agg):
         return x.kind + "{" + ",".join(describe(c, depth + 1) for c in x.fields) + "}"
     if isinstance(x, E.EnumV):
@@ -948,9 +951,16 @@ class Permissive:
                     st = s2
             st.events.append(("ext", name, crit.e if isinstance(crit, Z) else crit, payload))
             return [(st, UNIT)]
-        if re.match(r"^write_distinguished_name$", c) or re.match(r"^(key_pair::)?serialize_public_key_der::<", c):
-            st.events.append(("call", c.split("::<")[0], ()))
+        if re.match(r"^write_distinguished_name$", c):
+            st.events.append(("name", describe(args[1]), None))
             return one(UNIT)
+        if re.match(r"^(key_pair::)?serialize_public_key_der::<", c):
+            st.events.append(("spki", describe(args[0]), None))
+            return one(UNIT)
+        if re.search(r" as PartialEq(<.*>)?>::(eq|ne)$", c) and not re.search(r"DnType|DnValue", c):
+            # a comparison the contracts say nothing about: either outcome is possible
+            self.m.fresh += 1
+            return one(Z(z3.Bool(f"cmp!{self.m.fresh}")))
         r = self.orig(eng, callee, args, st)
         if r is not None:
             return r
@@ -1081,6 +1091,18 @@ def ob_ext_presence(fns):
                         d = describe(e[3])
                         if not ("derived-key-id" in d and "own-prespecified" in d and "issuer-prespecified" not in d and "public_key_der" not in d and "der-bytes" in d):
                             bad = "SKI is not derive(own key-identifier method, subject SPKI)"
+            if bad is None:
+                # issuer field from the issuer's name, subject field from the own name, SPKI from the subject key - in this order
+                nm = [e[1] for e in s2.events if e[0] == "name"]
+                if len(nm) != 2 or "issuer_dn" not in nm[0] or "subject_dn" not in nm[1]:
+                    bad = f"issuer/subject name fields are not written from (issuer's name, own name): {nm}"
+                sp = [e[1] for e in s2.events if e[0] == "spki"]
+                if not sp or any("subject_pubkey" not in x for x in sp):
+                    bad = bad or f"SubjectPublicKeyInfo is not written from the subject's public key: {sp}"
+                # the stored private key document must not flow into anything that is written
+                for e in s2.events:
+                    if "secret" in describe(list(e[1:])):
+                        bad = bad or f"the issuer key's stored private key document flows into the output ({e[0]} {e[1]})"
             if bad:
                 ob.result, ob.cex = "fail", {"op": "ext-presence", "note": bad, "extensions_on_path": names}
                 return ob
